@@ -29,6 +29,11 @@ POOLS = {
     "datetime": ("datetime64[ns]", ["2020-01-01", "1677-09-22", "2262-04-11", None]),
     "datetime_tz": ("datetime64[ns, UTC]", ["2020-01-01", "2021-06-01T12:00:00", None]),
     "timedelta": ("timedelta64[ns]", ["1 days", "-1 days", "0 days", None]),
+    # object columns holding python values of one kind: the statistics infer a logical dtype from the *values*
+    "objint": ("object", [1, 2, None, 2**53 + 1]),
+    "objfloat": ("object", [0.25, 1.5, None]),
+    "objbool": ("object", [True, False, None]),
+    "objdate": ("object", ["date:2020-01-01", "date:2021-06-01", None]),
     "category": ("category", ["a", "b", None]),
     "Int64": ("Int64", [1, None, I64MAX]),
     "uint8": ("uint8", [0, 255, 7]),
@@ -44,6 +49,10 @@ def _series(pool, values):
 
     dt = POOLS[pool][0]
     vals = list(values)
+    if pool == "objdate":
+        import datetime
+
+        vals = [datetime.date.fromisoformat(v[5:]) if isinstance(v, str) else v for v in vals]
     if dt.startswith("datetime64[ns, "):
         return pd.Series(pd.to_datetime(vals, utc=True)) if vals else pd.Series([], dtype=dt)
     if dt == "datetime64[ns]":
@@ -206,7 +215,7 @@ def _explore(pool, maxlen, index_kinds):
                 if ik != "default" and (L == 0 or (L < 2 and ik == "multi")):
                     continue
                 if ik.startswith("pool_"):
-                    if pool in ("category", "mixed"):
+                    if pool in ("category", "mixed", "objint", "objfloat", "objbool", "objdate"):
                         continue
                     n += 1
                     try:
@@ -226,7 +235,12 @@ def _explore(pool, maxlen, index_kinds):
                 ser2 = ser.copy()
                 ser2.index = _index(ik, L)
                 ser2.name = "x"
-                df = pd.DataFrame({"x": ser2, "other": pd.Series(list(range(L)), index=ser2.index, dtype="int64")})
+                cols = {"x": ser2, "other": pd.Series(list(range(L)), index=ser2.index, dtype="int64")}
+                if POOLS[pool][0] == "object":
+                    # a second object column of another kind (plain strings) after the enumerated one: per-column inference
+                    # must not be confused by two columns sharing the physical dtype `object`
+                    cols["s"] = pd.Series(["u", "v", "w", "z"][:L], index=ser2.index, dtype="object")
+                df = pd.DataFrame(cols)
                 _check_obj(df, "x", pool, f"frame:{ik}:{shape}", add)
                 if ik in ("default", "named"):
                     n += 1
